@@ -47,7 +47,7 @@ CFG = {
         "partial by nature: the theorems are about the decoder/encoder logic over read_exact / write_all as modelled in IO.lean (std loops quoted there); that std's loops behave as modelled is exercised by the correspondence only",
         'all six statements are proved in full: C14_readExact_sched, C14_decode_sched, C14_prefix (every stream that decodes completely), C14_prefix_serialize (every serialisation of a WF value), C14_prefix_rest, C14_write (+ C14_serializeFields_flatten)',
         'scheduled chunk size 0 is read as 1 in the model (the harness never generates 0)',
-        'the 64-bit half is handled by the treemap family',
+        '64-bit half: C14_t_decode_sched, C14_t_prefix, C14_t_prefix_serialize, C14_t_prefix_rest, C14_t_serializeFields_flatten, C14_t_write are proved in full (the treemap decoder is the same abstract-reader program; lifted through the bucket loop)',
     ],
     "level_text": "Lean 4 theorems: read_exact over any schedule of chunk sizes and interrupts equals read_exact over the plain "
                   "byte list, hence the decoder's result is schedule-independent; every strict prefix of a successfully "
